@@ -1403,6 +1403,14 @@ int32_t tls13ParseServerHello(ssl_t *ssl,
     if (!Memcmp(&ssl->sec.serverRandom, sha256OfHelloRetryRequest,
                     SSL_HS_RANDOM_SIZE))
     {
+        if (ssl->tls13IncorrectDheKeyShare)
+        {
+            /* RFC 8446, 4.1.4: a second HelloRetryRequest in the same
+               connection MUST be answered with unexpected_message. */
+            psTraceErrr("Second HelloRetryRequest\n");
+            ssl->err = SSL_ALERT_UNEXPECTED_MESSAGE;
+            return MATRIXSSL_ERROR;
+        }
         ssl->tls13IncorrectDheKeyShare = PS_TRUE;
         psTraceInfo(">>> Client parsing TLS 1.3 HelloRetryRequest message\n");
 
